@@ -320,7 +320,7 @@ func (r *Run) Finish() {
 			known[f.Clause+"\x00"+f.Sig] = f
 		}
 	}
-	var herr []string
+	var herr, flaky []string
 	nviol := 0
 	nknown := 0
 	seenKnown := map[string]bool{}
@@ -361,7 +361,7 @@ func (r *Run) Finish() {
 					}
 				}
 				if ok != 2 {
-					herr = append(herr, fmt.Sprintf("%s: violation %s/%s not reproducible on re-execution (%d/2): flaky oracle", p.Name, v.Clause, v.Sig, ok))
+					flaky = append(flaky, fmt.Sprintf("%s: violation %s/%s not reproducible on re-execution (%d/2): flaky oracle", p.Name, v.Clause, v.Sig, ok))
 					continue
 				}
 			}
@@ -389,6 +389,20 @@ func (r *Run) Finish() {
 			fmt.Fprintln(os.Stderr, "HARNESS-ERROR:", h)
 		}
 		os.Exit(2)
+	}
+	if len(flaky) > 0 {
+		// a failure that does not reproduce is never reported as a violation; when nothing else was
+		// found the check itself is suspect (exit 2), next to confirmed violations it is only noted
+		for _, h := range flaky {
+			if nviol > 0 {
+				fmt.Fprintln(os.Stderr, "NOTE:", h)
+			} else {
+				fmt.Fprintln(os.Stderr, "HARNESS-ERROR:", h)
+			}
+		}
+		if nviol == 0 {
+			os.Exit(2)
+		}
 	}
 	if nviol > 0 {
 		os.Exit(1)
